@@ -231,3 +231,51 @@ def Ry(a):
 
 def euler_zyz(alpha, beta, gamma):
     return Rz(gamma) @ Ry(beta) @ Rz(alpha)
+
+
+# ---- pristine-process execution -------------------------------------------
+def fork_call(fn, *args, timeout=300):
+    """Run fn(*args) in a forked child of the *current* process state and
+    return its (picklable) result.  Used to obtain the result an operation
+    gives as the first call of a pristine interpreter: call this before the
+    calling process has executed any operation itself.  Returns
+    ("ok", value) | ("died", wait-status) | ("exc", repr)."""
+    import os
+    import pickle
+    import select
+    import signal
+    import time
+    r, w = os.pipe()
+    pid = os.fork()
+    if pid == 0:
+        try:
+            os.close(r)
+            try:
+                out = ("ok", fn(*args))
+            except BaseException as e:          # noqa
+                out = ("exc", "%s: %s" % (type(e).__name__, e))
+            with os.fdopen(w, "wb") as f:
+                f.write(pickle.dumps(out, protocol=4))
+        finally:
+            os._exit(0)
+    os.close(w)
+    chunks = []
+    deadline = time.time() + timeout
+    with os.fdopen(r, "rb") as f:
+        while True:
+            left = deadline - time.time()
+            if left <= 0:
+                os.kill(pid, signal.SIGKILL)
+                os.waitpid(pid, 0)
+                return ("died", "timeout")
+            rl, _, _ = select.select([f], [], [], min(left, 1.0))
+            if rl:
+                b = os.read(f.fileno(), 1 << 20)
+                if not b:
+                    break
+                chunks.append(b)
+    _, status = os.waitpid(pid, 0)
+    data = b"".join(chunks)
+    if not data:
+        return ("died", status)
+    return pickle.loads(data)
